@@ -54,10 +54,9 @@ var frozenTable = map[string]string{
 	// non-constant arm, which is applied only to the two leaf children of a fast operator (C05 R-FASTPROXY); by R-KIND
 	// a leaf that is not a constant is a variable, whose value is its name.
 	"fetchVariableValueProxy|assert|$1.value.(string)": "n is a variable node at both call sites (TryEval's variable arm; the non-constant leaf child of a fast operator, C05 R-FASTPROXY + C01 R-KIND)",
-	// the slice-backed fetcher tests only the upper bound of the key; keys reach it from variable nodes, whose keys are
-	// values of VariableKeyMap, all >= minKey >= 0 when this fetcher is chosen (C11 R-FETCHGATE); the UndefinedVarKey marker
-	// occurs only in undefined-variable mode, which always takes the map-backed fetcher.
-	"(SliceVarFetcher).Get|index|$1[$2]": "constructed by NewCtxFromVars only when 0 <= minKey over all registered keys (C11 R-FETCHGATE); a hand-built fetcher with negative keys is outside 'well-behaved fetchers'",
+	// (the slice-backed fetcher used to be listed here: it tested only the upper bound of its key and relied on
+	// NewCtxFromVars never choosing it for negative keys; used directly with an undefined-variable program it panicked —
+	// D18, repaired in /repo aff66af. Get/Set/Cached now carry their own lower-bound test and are proven by the dataflow.)
 }
 
 func (l *ledger) scan(fn *ssa.Function) {
